@@ -91,6 +91,12 @@ ROWS = [  # (tag, slot, X, Y, Z)
 ROWS += [(20 + q, 0, 2.6 + 0.37 * (q % 6) + 0.011 * q, 2.2 + 0.5 * (q // 6) + 0.007 * q, 1.5 + 2.3 * q) for q in range(30)]
 
 
+NLONG = len(ROWS)
+# a fifth release row for the lon/lat scenarios: the position of row 0 again, a few millimetres away (2e-8 degrees of longitude: equal to row 0 when rounded to 6 or 7 decimals)
+NEAR = len(ROWS)
+ROWS.append((14, 0, 3.3, 3.6, 2.0))
+
+
 def run_variant(case, rows, shift=0, mults=None, name="v"):
     """rows: list of indices into ROWS in file order. Returns {tag: [per record tuple]} or raises RunFailed."""
     d = util.scratch("c14")
@@ -115,7 +121,7 @@ def run_variant(case, rows, shift=0, mults=None, name="v"):
         if case.get("coords") == "ll":
             from mc.props.c16 import bilin
 
-            rr.append(dict(mult=(mults or {}).get(ri, 1), release_time=world.iso(t0 + sign * slot * DT), lon=repr(float(bilin(W.lon, x, y))), lat=repr(float(bilin(W.lat, x, y))), Z=z, tag=tag))
+            rr.append(dict(mult=(mults or {}).get(ri, 1), release_time=world.iso(t0 + sign * slot * DT), lon=repr(float(bilin(W.lon, x, y)) + (2e-8 if ri == NEAR else 0.0)), lat=repr(float(bilin(W.lat, x, y))), Z=z, tag=tag))
         else:
             rr.append(dict(mult=(mults or {}).get(ri, 1), release_time=world.iso(t0 + sign * slot * DT), X=x, Y=y, Z=z, tag=tag))
     rr.sort(key=lambda r: sign * world.tosec(r["release_time"]))  # simulation order; stable: keeps the given order within a release time
@@ -159,9 +165,17 @@ def compare(base, var, tags, what, case, extra):
 
 
 def variants(case):
+    if case.get("coords") == "ll":  # with the near-duplicate of row 0: every variant of the plain lattice with that row appended, and the ones that separate the pair
+        plain = dict(case, coords=None)
+        for what, rows, kw in variants(plain):
+            yield what, rows + [NEAR], dict(kw, rows=kw["rows"] + [NEAR])
+        yield "subset", [1, 2, 3, NEAR], dict(rows=[1, 2, 3, NEAR])
+        yield "subset", [NEAR], dict(rows=[NEAR])
+        yield "permutation", [NEAR, 1, 2, 0, 3], dict(rows=[NEAR, 1, 2, 0, 3])
+        return
     idx = [0, 1, 2, 3]
     if case.get("nsteps"):  # long horizon: the crowd variants only, 34 observed particles
-        idx = list(range(len(ROWS)))
+        idx = list(range(NLONG))
         for m in ({2: 400}, {1: 150, 3: 200}, {0: 600}, {3: 140}):
             yield "mult", idx, dict(rows=idx, mults=m)
         yield "subset", idx[1:20], dict(rows=idx[1:20])
@@ -190,7 +204,7 @@ def run_case(case):
     viols, n, nt = [], 0, 0
     outcomes = set()
     try:
-        base, base_raw = run_variant(case, list(range(len(ROWS))) if case.get("nsteps") else [0, 1, 2, 3])
+        base, base_raw = run_variant(case, list(range(NLONG)) if case.get("nsteps") else [0, 1, 2, 3] + ([NEAR] if case.get("coords") == "ll" else []))
     except drive.RunFailed as e:
         return util.result(viol=[util.viol("crash:base", f"{case}: {e}", case)], nontrivial=1)
     n += 1
